@@ -28,8 +28,7 @@ def _emergency_true(pn, pa):
     """`emergency_unlock` is Some(true), in any spelling: is_some() && unwrap(), unwrap_or(false), == Some(true)"""
     if pn == "data":
         o = {x for x in all_origins(pa[0])}
-        return bool(o) and o <= {"msg.ManagePosition.action.Withdraw.emergency_unlock", "Const(false)"} and "Const(false)" != min(o) or \
-            o == {"msg.ManagePosition.action.Withdraw.emergency_unlock"}
+        return "msg.ManagePosition.action.Withdraw.emergency_unlock" in o and o <= {"msg.ManagePosition.action.Withdraw.emergency_unlock", "Const(false)"}
     if pn == "eq" and len(pa) > 1:
         a, b = all_origins(pa[0]), all_origins(pa[1])
         e = {"msg.ManagePosition.action.Withdraw.emergency_unlock"}
